@@ -18,8 +18,8 @@ MAP = [
  ("names its temporaries in hash order", ["C15", "C07"]),
  ("inserts phases in hash order", ["C15", "C16"]),
  ("ignores should_disambiguate_name", ["C16"]),
- ("leaves the condition of a statement unmapped", ["C16", "C07", "C08"]),
- ("does not map loop identifiers", ["C16", "C07"]),
+ ("leaves the condition of a statement unmapped", ["C16", "C07"]),
+ ("does not map loop identifiers", ["C16"]),
  ("inequality operator as", ["C03"]),
  ("constant hoisting fails with KeyError", ["C18"]),
  ("leaks user-type temporaries", ["C12"]),
@@ -31,35 +31,40 @@ MAP = [
  ("identifiers that may start with a digit", ["C13"]),
  ("discards <ret_*> variables", ["C01", "C11"]),
  ("solver parameters and solve variables unmapped", ["C16"]),
- ("AttributeError on a Nop", ["C04", "C01"]),
+ ("AttributeError on a Nop", ["C04"]),
  ("late-defined operands", ["C14"]),
  ("inside a loop that still reads it", ["C12"]),
  ("negative constant base of a power", ["C01"]),
- ("isnan built-in returns an array", ["C09", "C01"]),
+ ("isnan built-in returns an array", ["C09"]),
  ("power whose base is a power", ["C01", "C03"]),
- ("splits a quoted string", ["C20", "C01"]),
+ ("splits a quoted string", ["C20"]),
 ]
-log = subprocess.run(["git", "-C", "/repo", "log", "--reverse", "--format=%h %s"],
-                     capture_output=True, text=True).stdout.splitlines()
-fixed = []
-unmapped = []
-for line in log:
-    h, _, subj = line.partition(" ")
-    if not subj.startswith("fix:"):
-        continue
-    what = subj[len("fix: "):]
-    props = None
-    for key, ps in MAP:
-        if key in subj:
-            props = ps
-    if props is None:
-        unmapped.append(line)
-        continue
-    for p in props:
-        fixed.append({"property": p, "commit": h, "what": what,
-                      "line": f"fixed: property={p} {h} {what}"})
-path = os.path.join(ROOT, "known_findings.json")
-kf = json.load(open(path))
-kf["fixed"] = fixed
-json.dump(kf, open(path, "w"), indent=1)
-print(len(fixed), "fixed entries;", "UNMAPPED:" if unmapped else "", *unmapped)
+def main():
+    log = subprocess.run(["git", "-C", "/repo", "log", "--reverse", "--format=%h %s"],
+                         capture_output=True, text=True).stdout.splitlines()
+    fixed = []
+    unmapped = []
+    for line in log:
+        h, _, subj = line.partition(" ")
+        if not subj.startswith("fix:"):
+            continue
+        what = subj[len("fix: "):]
+        props = None
+        for key, ps in MAP:
+            if key in subj:
+                props = ps
+        if props is None:
+            unmapped.append(line)
+            continue
+        for p in props:
+            fixed.append({"property": p, "commit": h, "what": what,
+                          "line": f"fixed: property={p} {h} {what}"})
+    path = os.path.join(ROOT, "known_findings.json")
+    kf = json.load(open(path))
+    kf["fixed"] = fixed
+    json.dump(kf, open(path, "w"), indent=1)
+    print(len(fixed), "fixed entries;", "UNMAPPED:" if unmapped else "", *unmapped)
+
+
+if __name__ == "__main__":
+    main()
